@@ -31,6 +31,24 @@ def k6_class(standalone):
     return False
 
 
+def k3_class(standalone, names):
+    """K3: one of the named tasks (or something upstream of it) has a dont_persist_default_value parameter whose value equals the default
+    under Python == although it is another JSON value (False / 0, 1 / True / 1.0): two different computations share one key, hence one
+    object across member chains"""
+    from tcv import findings
+    from taskchain.task import Task
+
+    def up(t, seen):
+        if id(t) in seen:
+            return False
+        seen.add(id(t))
+        for p in t.parameters.values():
+            if getattr(p, 'dont_persist_default_value', False) and not p.required and findings.k3(p._value, p.default):
+                return True
+        return any(up(i, seen) for i in t.input_tasks.values() if isinstance(i, Task))
+    return any(up(ch.tasks[n], set()) for ch in standalone for n in names if n in ch.tasks)
+
+
 def run(ctx):
     quiet()
     from taskchain import MultiChain
@@ -125,7 +143,7 @@ def run(ctx):
             if a != s:
                 bad = [k for k in s if a.get(k) != s[k]] + [k for k in a if k not in s]
                 ctx.fail('a member chain of a MultiChain differs from the standalone chain of the same config', full_case, {'tasks': bad[:4]},
-                         known='K6' if k6_class(standalone) else None)
+                         known='K6' if k6_class(standalone) else ('K3' if k3_class(standalone, bad) else None))
                 break
         # ---- oracle 2: one object iff same location
         loc = {}
